@@ -67,6 +67,8 @@ def _slice(args):
             for n in range(0, exhaustive_len + 1):
                 for tup in itertools.product(SYMS, repeat=n):
                     frags.add("".join(tup))
+        for s0 in sorted(frags)[:60]:
+            frags.update(lib.partner_variants(s0, 2))
         pollute.preparse(P, look, [s for s in sorted(frags) if len(s) < 12][:200])
         for s in sorted(frags):
             offs = range(len(s) + 1) if len(s) <= 6 else sorted({0, rng.randint(0, len(s)), len(s)})
